@@ -45,7 +45,28 @@ type c17Case struct {
 	Ops  []string `json:"ops,omitempty"` // trace histories
 	// what the tokenizer did before it was Reset to Doc ("" = a new tokenizer)
 	Prior string `json:"prior,omitempty"`
+	// a second tokenizer is advanced by one token after each token of this one (tokenizers take their stacks from a pool:
+	// a stack that went back to the pool twice ends up under two of them)
+	Companion bool `json:"companion,omitempty"`
 }
+
+const c17CompanionDoc = `[[{"k":[1,2],"l":{"m":[]}}],[3,[4,[5]]],6]`
+
+type c17Tok struct {
+	val   string
+	depth int
+	index int
+	isKey bool
+}
+
+// the companion's own token stream, taken once from a tokenizer used alone
+var c17CompanionToks = func() (out []c17Tok) {
+	t := json.NewTokenizer([]byte(c17CompanionDoc))
+	for t.Next() {
+		out = append(out, c17Tok{string(t.Value), t.Depth, t.Index, t.IsKey})
+	}
+	return
+}()
 
 // "a Reset tokenizer behaves like a new one": the token stream of every document is also read with a
 // tokenizer that was used before - to the end of a document, stopped inside one, after an error, on input
@@ -180,6 +201,9 @@ func c17RunDoc(c *Ctx, k c17Case) {
 			api += " (Reset tokenizer)"
 			got += " [tokenizer used before: " + k.Prior + "]"
 		}
+		if k.Companion {
+			got += " [a second tokenizer is advanced in turn]"
+		}
 		c.Diverge("C17", api, want, got, "", k)
 	}
 	// REF: the definition must agree with encoding/json's token stream
@@ -203,11 +227,25 @@ func c17RunDoc(c *Ctx, k c17Case) {
 	var concat []byte
 	p := protect(func() {
 		t := c17Tokenizer(k.Prior, doc)
+		var comp *json.Tokenizer
+		ci := 0
 		for i, cl := range k.Cls {
 			c.Eval(1)
 			if !t.Next() {
 				fail("Tokenizer.Next", fmt.Sprintf("true at token %d (%s)", i, k.Toks[i]), fmt.Sprintf("false err=%v", t.Err))
 				return
+			}
+			if k.Companion {
+				if comp == nil || ci == len(c17CompanionToks) {
+					comp, ci = json.NewTokenizer([]byte(c17CompanionDoc)), 0
+				}
+				w := c17CompanionToks[ci]
+				if !comp.Next() || string(comp.Value) != w.val || comp.Depth != w.depth || comp.Index != w.index || comp.IsKey != w.isKey {
+					fail("Tokenizer (a second tokenizer used in turn with this one)", fmt.Sprintf("token %d of %s: %s depth=%d index=%d", ci, c17CompanionDoc, w.val, w.depth, w.index),
+						fmt.Sprintf("%s depth=%d index=%d err=%v", comp.Value, comp.Depth, comp.Index, comp.Err))
+					return
+				}
+				ci++
 			}
 			if string(t.Value) != k.Toks[i] {
 				fail("Tokenizer.Value", k.Toks[i], string(t.Value))
@@ -357,7 +395,14 @@ func c17Literal(c *Ctx, k strCase) {
 		for round := 0; round < 2; round++ {
 			n := 0
 			c.Eval(1)
-			for tok.Next() {
+			next := func() (ok bool) {
+				if p := protect(func() { ok = tok.Next() }); p != "" {
+					c.Diverge("C17", "Tokenizer.Next", "no panic", fmt.Sprintf("%s (document form %d, round %d)", p, wi, round), "", k)
+					return false
+				}
+				return ok
+			}
+			for next() {
 				if tok.Kind().Class() != json.String || string(tok.Value) == `"k"` {
 					continue
 				}
@@ -465,6 +510,11 @@ func c17Vector(c *Ctx, raw stdjson.RawMessage) {
 		for _, pr := range c17Priors {
 			k.Prior = pr.name
 			c17RunDoc(c, k)
+			if i == 0 {
+				k.Companion = true
+				c17RunDoc(c, k)
+				k.Companion = false
+			}
 		}
 		if i == 0 || i == 1 {
 			// the same document some levels further down
@@ -484,6 +534,7 @@ func c17Vector(c *Ctx, raw stdjson.RawMessage) {
 			c.Case()
 			for _, pr := range c17Priors {
 				kd.Prior = pr.name
+				kd.Companion = i == 1
 				c17RunDoc(c, kd)
 			}
 		}
